@@ -155,6 +155,7 @@ theorem symCipher_ideal : symCipher.Ideal where
           · next he =>
             cases h
             refine ⟨0, ?_⟩
+            suffices hv : v = symCipher.box k 0 m by intro k'; rw [← hv]
             rw [symCipher_box, ← ht, ← hdrop, List.append_assoc]
             congr 1
             rw [← hc.2, he]; exact hcut
